@@ -480,7 +480,30 @@ def check_nested_decoding(ctx: Ctx):
     it = fi.nested.get("_interpret")
     gs = fi.nested.get("_getsize")
     if it is None or gs is None:
-        raise AnchorError(fi.short, "_interpret / _getsize not found")
+        # the two helpers found by the part they play, wherever they live (nested closure or module-level function):
+        # the decoder is the self-recursive function started from a return statement of interpret_as_qtype, the size
+        # function is the self-recursive one-parameter function it calls that reads BIT_SIZE
+        def resolve(name):
+            return fi.nested.get(name) or ctx.repo.maybe_func(f"{T}.{name}")
+
+        def self_recursive(f):
+            return any(isinstance(c.func, ast.Name) and c.func.id == f.name for c in q.calls(f.node))
+
+        it = gs = None
+        for r in q.returns(fi):
+            for c in q.calls(r):
+                if isinstance(c.func, ast.Name):
+                    f = resolve(c.func.id)
+                    if f is not None and len(f.params) == 3 and self_recursive(f):
+                        it = f
+        if it is not None:
+            for c in q.calls(it.node):
+                if isinstance(c.func, ast.Name) and c.func.id != it.name:
+                    f = resolve(c.func.id)
+                    if f is not None and len(f.params) == 1 and "BIT_SIZE" in norm(f.node) and self_recursive(f):
+                        gs = f
+        if it is None or gs is None:
+            raise AnchorError(fi.short, "the nested decoder (a self-recursive (bits, type, width) function started from interpret_as_qtype) and its size function were not found")
     loops = [l for l in q.for_loops(it.node) if "get_args" in norm(l.iter)]
     if len(loops) != 1:
         raise AnchorError(it.short, "tuple branch loop not found")
@@ -540,16 +563,28 @@ def check_nested_decoding(ctx: Ctx):
     # _getsize: BIT_SIZE, recursive sum over get_args, 1 for bool
     txt = norm(gs.node)
     p = gs.params[0]
-    loops = [l2 for l2 in q.for_loops(gs.node)]
+    gbinds = single_bindings(gs)
+
+    def over_args(e) -> bool:
+        seen_ = set()
+        while isinstance(e, ast.Name) and e.id in gbinds and e.id not in seen_:
+            seen_.add(e.id)
+            e = gbinds[e.id]
+        return "get_args" in norm(e)
+
+    self_calls = [c for c in q.calls(gs.node) if isinstance(c.func, ast.Name) and c.func.id == gs.name]
     rec_ok = False
-    for l2 in loops:
-        if "get_args" in norm(l2.iter):
-            rec_ok = any(isinstance(s, ast.AugAssign) and isinstance(s.op, ast.Add) and any(isinstance(c, ast.Call) and norm(c.func) == "_getsize" for c in ast.walk(s.value)) for s in l2.body)
-    sums = [c for c in q.calls(gs.node) if isinstance(c.func, ast.Name) and c.func.id == "sum"]
-    for c in sums:
-        if any(isinstance(x_, ast.Call) and norm(x_.func) == "_getsize" for x_ in ast.walk(c)):
+    for l2 in q.for_loops(gs.node):
+        if over_args(l2.iter) and any(q.contains(l2, c) for c in self_calls):
+            # summed: an accumulator grown by the recursive width
+            rec_ok = any(isinstance(s_, ast.AugAssign) and isinstance(s_.op, ast.Add) and any(c2 in self_calls for c2 in ast.walk(s_.value)) for s_ in ast.walk(l2)) or rec_ok
+    for c in q.calls(gs.node):
+        if isinstance(c.func, ast.Name) and c.func.id == "sum" and any(x_ in self_calls for x_ in ast.walk(c)):
             rec_ok = True
-    ctx.check(rec_ok, "OR-SEQ", gs, "width of a tuple = sum of the widths of its elements, recursively", "", "the width of a nested tuple is not the recursive sum of its elements' widths (a nested tuple element counted as one bit mis-aligns every later element)", gs.node)
+    if not rec_ok and self_calls:
+        ctx.undecided(gs.short, "OR-SEQ [width of a tuple = sum of the widths of its elements, recursively]: the size function calls itself, but not inside a sum / accumulating loop over get_args(...) that the tables describe")
+    else:
+        ctx.check(rec_ok, "OR-SEQ", gs, "width of a tuple = sum of the widths of its elements, recursively", "", "the size function never calls itself: the width of a nested tuple is not the recursive sum of its elements' widths (a nested tuple element counted as one bit, or by a missing BIT_SIZE, mis-aligns every later element)", gs.node)
     ctx.check(f"{p}.BIT_SIZE" in txt and "return 1" in txt, "OR-SEQ", gs, "width of a Qtype = BIT_SIZE, of bool = 1", "", "", gs.node)
     # leaves
     leaf = [r for r in q.returns(it) if isinstance(r.value, ast.Call) and isinstance(r.value.func, ast.Attribute) and r.value.func.attr == "from_bool"]
@@ -619,4 +654,14 @@ def check_exact(ctx: Ctx):
                 ctx.fail("OR-EXACT", fi, role, f"`{norm(c)[:60]}` discards the fractional part of the value before the bits are extracted", c)
             else:
                 ctx.undecided(fi.short, f"OR-EXACT [{role}]: `{norm(c)[:60]}` rounds a scaled or variably-rounded value ({fi.loc(c)})")
+    # characters: the code of a character is ord(c); a UTF-8 (default) encoding spells code points 128..255 - half of
+    # the 8-bit pattern space - with two bytes, neither of which is the code
+    for fi in repo.functions.values():
+        if fi.module is None or not (fi.short.startswith("types.qchar.") or fi.short == "types.const_to_qtype"):
+            continue
+        for c in q.calls(fi.node):
+            if isinstance(c.func, ast.Attribute) and c.func.attr == "encode":
+                enc = c.args[0] if c.args else next((k.value for k in c.keywords if k.arg == "encoding"), None)
+                one_byte = isinstance(enc, ast.Constant) and str(enc.value).lower().replace("_", "-") in ("latin-1", "latin1", "iso-8859-1", "iso8859-1", "l1")
+                ctx.check(one_byte, "OR-EXACT", fi, "a character's pattern is its code point (ord), for all 256 patterns", norm(c), f"`{norm(c)[:50]}` encodes with {'UTF-8 (the default)' if enc is None else norm(enc)}: code points 128..255 become two bytes, so the bits taken from the first byte are not the character's code and decode(encode(c)) != c for the upper half of the patterns", c)
     ctx.ok("OR-EXACT", None, "fixed-point codecs read the value exactly", f"{scanned} functions of types.qfixed / types.qtype / const_to_qtype scanned, {hits} rounding calls; finest type {kname} ({kmax} fractional bits)", construct="types.qfixed")
